@@ -854,7 +854,14 @@ fn range_bounds(bound: impl RangeBounds<i64>, size: usize) -> Option<(usize, usi
         Bound::Included(end) => (*end, 1),
         Bound::Excluded(end) => (*end, 0),
     };
-    let offset = if end >= size { 1 } else { offset };
+    let offset = if end >= size {
+        1
+    } else if end < -size {
+        // inclusive end that lies before the axis selects nothing
+        0
+    } else {
+        offset
+    };
     let end = clamp(end + size, 0, 2 * size - 1) % size + offset;
 
     if end <= start {
